@@ -84,12 +84,49 @@ func genMergeSrc() {
 	var spaceCases []string
 	shape := false
 	var calls []string
+	var slots [][4]string
 	for _, d := range f.Decls {
 		fd, ok := d.(*ast.FuncDecl)
 		if !ok || fd.Body == nil {
 			continue
 		}
 		if fd.Name.Name == "decorateSelectorExpr" {
+			// the thirteen slots: which map entry each merged local holds, and the two spacings copied directly
+			for _, st := range fd.Body.List {
+				switch st := st.(type) {
+				case *ast.AssignStmt:
+					if len(st.Lhs) == 1 && len(st.Rhs) == 1 && st.Tok == token.ASSIGN {
+						l, r := src(st.Lhs[0]), src(st.Rhs[0])
+						for _, m := range []string{"before", "after"} {
+							pre := "f." + m + "["
+							if strings.HasPrefix(r, pre) && strings.HasSuffix(r, "]") {
+								slots = append(slots, [4]string{l, m, strings.TrimSuffix(strings.TrimPrefix(r, pre), "]"), ""})
+							}
+						}
+					}
+				case *ast.IfStmt:
+					// if decs, ok := f.decorations[NODE]; ok { v = decs["KEY"] ... }
+					if as, ok := st.Init.(*ast.AssignStmt); ok && st.Else == nil && src(st.Cond) == "ok" && len(as.Lhs) == 2 && src(as.Lhs[0]) == "decs" && len(as.Rhs) == 1 {
+						r := src(as.Rhs[0])
+						if strings.HasPrefix(r, "f.decorations[") && strings.HasSuffix(r, "]") {
+							node := strings.TrimSuffix(strings.TrimPrefix(r, "f.decorations["), "]")
+							for _, b := range st.Body.List {
+								ba, ok := b.(*ast.AssignStmt)
+								if !ok || len(ba.Lhs) != 1 || len(ba.Rhs) != 1 || ba.Tok != token.ASSIGN {
+									noteUnknown(mergeWhere, "slot assignment of unexpected shape: "+src(b))
+									continue
+								}
+								rr := src(ba.Rhs[0])
+								if strings.HasPrefix(rr, `decs["`) && strings.HasSuffix(rr, `"]`) {
+									slots = append(slots, [4]string{src(ba.Lhs[0]), "decorations", node, strings.TrimSuffix(strings.TrimPrefix(rr, `decs["`), `"]`)})
+								} else {
+									noteUnknown(mergeWhere, "slot assignment of unexpected shape: "+src(b))
+								}
+							}
+						}
+					}
+				}
+			}
 			ast.Inspect(fd.Body, func(n ast.Node) bool {
 				is, ok := n.(*ast.IfStmt)
 				if !ok || is.Init == nil {
@@ -178,6 +215,12 @@ func genMergeSrc() {
 	b.WriteString("(* GENERATED from /repo/decorator/decorator.go -- do not edit *)\n")
 	b.WriteString("From Coq Require Import List String.\nImport ListNotations.\nFrom DV Require Import Model.MergeProg.\nLocal Open Scope string_scope.\n\n")
 	fmt.Fprintf(&b, "Definition mergeDecorations_src : mprog :=\n  mkMProg %v\n    %s\n    %s\n    [%s]\n    %s.\n\n", shape, nilCase, strCase, strings.Join(spaceCases, ";\n     "), defaultPanics)
-	fmt.Fprintf(&b, "Definition merge_calls : list (string * list string) :=\n  [%s].\n", strings.Join(calls, ";\n   "))
+	fmt.Fprintf(&b, "Definition merge_calls : list (string * list string) :=\n  [%s].\n\n", strings.Join(calls, ";\n   "))
+	// (local or field, map, node, decoration point)
+	var sl []string
+	for _, x := range slots {
+		sl = append(sl, "("+q(x[0])+", "+q(x[1])+", "+q(x[2])+", "+q(x[3])+")")
+	}
+	fmt.Fprintf(&b, "Definition merge_slots : list (string * string * string * string) :=\n  [%s].\n", strings.Join(sl, ";\n   "))
 	writeIfChanged("MergeSrc.v", b.String())
 }
